@@ -477,6 +477,10 @@ pub fn run_mode(opts: &Options, prop: &str) -> Report {
         let mut foreign_filters: Option<String> = None;
         // the heights of the stored tip's branch that were passed on such filters
         let mut foreign_ranges: Vec<(u64, u64)> = Vec::new();
+        // bans of a peer that has reorganised and announced it, for an answer of the filter
+        // protocol it gave BEFORE the client asked it for the proof of its new chain (the client
+        // still holds the peer's previous proved state and filter hashes): how many of `node.bans`
+        let mut bans_in_window: usize = 0;
         // C08: after a crash INSIDE the fork handling (records above the fork point deleted, the
         // rollback batch not written) half of the runs continue on the OLD branch, which has
         // grown beyond the new one meanwhile (the reorganisation is reorganised away)
@@ -620,6 +624,7 @@ pub fn run_mode(opts: &Options, prop: &str) -> Report {
                                 let volatile_empty = node.i().peers.matched_blocks().read().unwrap().is_empty();
                                 in_lc_delivery.set(rp == SupportProtocols::LightClient.protocol_id());
                                 let sites_before = sites.borrow().len();
+                                let bans_before = node.i().nc_filter.rec.lock().unwrap().banned.len();
                                 let saved_filters = if prop == "C09" && kind == "BlockFilters" { Some(bytes.clone()) } else { None };
                                 if let Err(e) = catch(|| node.deliver(p, rp, bytes)) {
                                     aborted = Some(e);
@@ -635,6 +640,21 @@ pub fn run_mode(opts: &Options, prop: &str) -> Report {
                                     }
                                 }
                                 let after = observe_all(&node, branches, serving);
+                                let bans_now = node.i().nc_filter.rec.lock().unwrap().banned.len();
+                                if rp == SupportProtocols::Filter.protocol_id() && bans_now > bans_before {
+                                    let tip_hash = node.i().storage.get_tip_header().calc_header_hash();
+                                    let pb = peer_branch.get(p.value()).copied().unwrap_or(serving);
+                                    let peer_proved_on_its_chain = node
+                                        .i()
+                                        .peers
+                                        .get_state(&p)
+                                        .and_then(|st| st.get_prove_state().map(|ps| branches[pb].chain.number_of_hash(&ps.get_last_header().header().hash()).is_some()))
+                                        .unwrap_or(false);
+                                    if branches[pb].chain.number_of_hash(&tip_hash).is_none() || !peer_proved_on_its_chain {
+                                        bans_in_window += bans_now - bans_before;
+                                        rep.count_class("ban-for-an-answer-between-announcement-and-proof");
+                                    }
+                                }
                                 if kind == "BlockFilters" && after.min_f > before.min_f {
                                     let tip_hash = node.i().storage.get_tip_header().calc_header_hash();
                                     let pb = peer_branch.get(p.value()).copied().unwrap_or(serving);
@@ -1004,11 +1024,20 @@ pub fn run_mode(opts: &Options, prop: &str) -> Report {
         if prop == "C04" && !node.bans.is_empty() && (n_peers == 1 || (first_left && n_peers == 2)) {
             let what: Vec<String> = node.bans.iter().map(|(p, m)| format!("peer {}: {}", p, m.chars().take(90).collect::<String>())).collect();
             let code = node.bans[0].1.split(|c: char| !c.is_ascii_alphanumeric()).find(|w| !w.is_empty()).unwrap_or("?").to_string();
-            rep.violate(
-                &format!("{}|honest-peer-banned|{}", prop, code),
-                "a peer that follows the protocol is banned while the client follows a reorganisation",
-                replay(format!("# bans: {:?}", what)),
-            );
+            let real_bans = node.bans.iter().filter(|(_, m)| !m.starts_with("PeerIsNotFound")).count();
+            if bans_in_window >= real_bans {
+                rep.violate(
+                    &format!("{}|honest-peer-banned|{}|answer-between-announcement-and-proof", prop, code),
+                    "a peer that has reorganised and announced its new tip answers a request of the filter protocol from its new chain before the client has asked it for the proof: the client still judges the answer by the peer's previous proved chain and bans the honest peer",
+                    replay(format!("# bans: {:?}", what)),
+                );
+            } else {
+                rep.violate(
+                    &format!("{}|honest-peer-banned|{}", prop, code),
+                    "a peer that follows the protocol is banned while the client follows a reorganisation",
+                    replay(format!("# bans: {:?}", what)),
+                );
+            }
             continue;
         }
         let tip = node.i().storage.get_tip_header().calc_header_hash();
